@@ -185,7 +185,7 @@ func statRun(t *testing.T, p StatParams) StatResult {
 }
 
 func statPlan(env vh.Env) StatParams {
-	p := StatParams{Seed: env.Seed ^ 0x633032737461, Rounds: 400, Other: 1500, Pending: 40, Callers: 6, BudgetMs: 6000, Note: statNote}
+	p := StatParams{Seed: env.Seed ^ 0x633032737461, Rounds: 400, Other: 1500, Pending: 40, Callers: 6, BudgetMs: 4000, Note: statNote}
 	if env.Tier == "thorough" {
 		p.Rounds, p.BudgetMs = 6000, 60000
 	}
